@@ -98,6 +98,11 @@ NextWrong(c, r, R) ==
           /\ j <= Len(vals)
           /\ Len(vs) = 1 /\ Equiv(R, vals[j], vs[1]))}
 
+\* grey zone: a JSON stream whose last value is a number that only the end of
+\* input terminates; in which Next call its event arrives is not determined
+TrailingBareNumber(c) ==
+  c.fmt = "json" /\ Len(c.doc) > 0 /\ (IsDigit(c.doc[Len(c.doc)]) \/ c.doc[Len(c.doc)] \in {46, 101, 69, 43, 45})
+
 ParseVerdict(c) ==
   LET r == Ref(c.fmt, c.doc, c.numtab)
       out == AllEv(c)
@@ -123,7 +128,7 @@ ParseVerdict(c) ==
       THEN <<P \o ":events reported beyond the offending item">> ELSE <<>>)
   \o (IF Accepted(c) /\ r.class \in {"complete", "grey", "invalid", "lex", "unsupported"} /\ ~(cr.ok /\ cr.stk = <<>>)
       THEN <<"C09:contract:" \o (IF cr.ok THEN "unbalanced at end" ELSE cr.why)>> ELSE <<>>)
-  \o (IF IsDecEntry(c.entry) /\ r.class = "complete" /\ c.outcome = "ok"
+  \o (IF IsDecEntry(c.entry) /\ r.class = "complete" /\ c.outcome = "ok" /\ ~TrailingBareNumber(c)
       THEN (IF NextWrong(c, r, R) # {} THEN <<"C18:a Next call did not deliver exactly the next value">> ELSE <<>>)
            \o (IF Accepted(c) /\ Len(c.calls) # r.done + 1
                THEN <<"C18:number of successful Next calls differs from the number of values">> ELSE <<>>)
@@ -273,6 +278,27 @@ FaultVerdict(c) ==
   \o (IF c.outcome = "ok" /\ prod /\ \E j \in J : runs[j].after > 0
       THEN <<"C16:events were delivered after the visitor had failed">> ELSE <<>>)
 
+\* ---- kind "reuse" (C17) ------------------------------------------------------------
+(* Instance model: between documents an instance is indistinguishable from *)
+(* a new one.  The harness processes a history of complete documents on    *)
+(* one instance, then a probe, and the probe alone on a fresh instance.    *)
+(* The delivery mode of strings (by value / by reference) is not part of   *)
+(* the observation: it legitimately depends on where reads end.            *)
+NormTy(e) == [e EXCEPT !.ty = IF @ = "strref" THEN "str" ELSE IF @ = "keyref" THEN "key" ELSE @]
+NormEvs(evs) == [j \in 1..Len(evs) |-> NormTy(evs[j])]
+ReuseVerdict(c) ==
+  LET x == c.extra IN
+  (IF c.outcome # "ok" THEN <<"C17:outcome:" \o c.outcome>> ELSE <<>>)
+  \o (IF c.outcome = "ok" /\ x.histerr = "" /\ \E j \in 1..Len(x.deps) : x.deps[j] # x.idle
+      THEN <<"C17:a nesting stack is not back at its idle depth after a completed document">> ELSE <<>>)
+  \o (IF c.outcome = "ok" /\ x.histerr = "" /\ x.reused.err # x.fresh.err
+      THEN <<"C17:the probe succeeds on one of reused/fresh instance and fails on the other">> ELSE <<>>)
+  \o (IF c.outcome = "ok" /\ x.histerr = "" /\ x.reused.err = x.fresh.err
+      THEN IF c.sub.component = "enc"
+           THEN (IF x.reused.b # x.fresh.b THEN <<"C17:reused encoder writes different bytes than a fresh one">> ELSE <<>>)
+           ELSE (IF NormEvs(x.reused.ev) # NormEvs(x.fresh.ev) THEN <<"C17:reused parser/decoder reports different events than a fresh one">> ELSE <<>>)
+      ELSE <<>>)
+
 \* ---- the trace machine ----------------------------------------------------------
 Verdict(c) ==
   CASE c.kind = "parse" -> ParseVerdict(c)
@@ -281,6 +307,7 @@ Verdict(c) ==
     [] c.kind = "sched" -> SchedVerdict(c)
     [] c.kind = "extcmp" -> ExtCmpVerdict(c)
     [] c.kind = "fault" -> FaultVerdict(c)
+    [] c.kind = "reuse" -> ReuseVerdict(c)
     [] OTHER -> <<"INFRA:unknown case kind">>
 
 Init == i = 1 /\ nfail = 0
